@@ -50,7 +50,7 @@ func init() {
 		},
 		Ref:      func(c []float64, in []ref.S) []ref.S { return []ref.S{ref.Max(in[0], I(c, 0))} },
 		PriceDeg: []int{1}, VolDeg: []int{0},
-		Range:    movingRange("max"),
+		Range: movingRange("max"),
 	})
 	RegInd(&Ind{
 		Name: "trend.MovingMin", In: []string{"X"}, Out: []string{"min"},
@@ -61,7 +61,7 @@ func init() {
 		},
 		Ref:      func(c []float64, in []ref.S) []ref.S { return []ref.S{ref.Min(in[0], I(c, 0))} },
 		PriceDeg: []int{1}, VolDeg: []int{0},
-		Range:    movingRange("min"),
+		Range: movingRange("min"),
 	})
 	RegInd(&Ind{
 		Name: "trend.Ema", In: []string{"X"}, Out: []string{"ema"},
